@@ -54,10 +54,11 @@ pub fn parse_objective(objective: Pair<Rule>) -> Result<PreObjective, Compilatio
                 (None, Some(objective_type)) => {
                     let obj_type = objective_type.as_str().parse::<OptimizationType>();
                     match obj_type {
+                        // a feasibility problem has the constant objective 0, as in the builder's `satisfy()`
                         Ok(OptimizationType::Satisfy) => Ok(PreObjective::new(
                             obj_type.unwrap(),
                             PreExp::Primitive(Spanned::new(
-                                Primitive::Boolean(true),
+                                Primitive::Number(0.0),
                                 InputSpan::from_pair(&objective_type),
                             )),
                         )),
